@@ -8,6 +8,7 @@ import (
 	"go/token"
 	"go/types"
 	"strconv"
+	"strings"
 )
 
 func (v *Verifier) name(s *State, hint string, t *Term) *Term {
@@ -167,7 +168,13 @@ func (v *Verifier) execBlock(s *State, list []ast.Stmt) []*Flow {
 				}
 				continue
 			}
-			next = append(next, v.execStmt(f.St, st)...)
+			v.ghostAsserts(f.St, st, "before")
+			for _, nf := range v.execStmt(f.St, st) {
+				if nf.Kind == flowNormal && !nf.St.dead {
+					v.ghostAsserts(nf.St, st, "after")
+				}
+				next = append(next, nf)
+			}
 		}
 		flows = next
 		v.npaths = max(v.npaths, len(flows))
@@ -1379,4 +1386,48 @@ func (v *Verifier) stableValue(before *State, e ast.Expr, ms *loopModSet) (*Term
 	val := v.eval(tmp, e)
 	v.obligeHook = save
 	return val, true
+}
+
+// ghostAsserts: `assert before|after "stmt text" expr` clauses are proof cuts:
+// the expression is an obligation at that program point and is assumed afterwards.
+func (v *Verifier) ghostAsserts(s *State, st ast.Stmt, where string) {
+	if v.fc == nil || s.dead {
+		return
+	}
+	var src string
+	for k, c := range v.fc.Clauses {
+		if c.Kind != "assert" || c.Where != where {
+			continue
+		}
+		if src == "" {
+			src = v.stmtText(st)
+		}
+		if !strings.HasPrefix(src, c.Marker) {
+			continue
+		}
+		c.hit = true
+		env := v.newEnv(v.pkg.Types)
+		env.scope = v.pkg.Types.Scope().Innermost(st.Pos())
+		if where == "after" {
+			env.scope = v.pkg.Types.Scope().Innermost(st.End() - 1)
+			if sc := v.pkg.Types.Scope().Innermost(st.Pos()); sc != nil {
+				env.scope = sc
+			}
+		}
+		g := env.at(s, v.entry).trBool(c.Expr)
+		v.oblige(s, "assert", fmt.Sprintf("%d", k+1), g, st.Pos(), "ghost assertion "+where+" `"+c.Marker+"`: "+c.Expr.String())
+		s.assume(g)
+	}
+}
+
+func (v *Verifier) stmtText(st ast.Stmt) string {
+	p1, p2 := v.eng.fset.Position(st.Pos()), v.eng.fset.Position(st.End())
+	if !p1.IsValid() || !p2.IsValid() {
+		return ""
+	}
+	b := v.eng.fileBytes(p1.Filename)
+	if b == nil || p2.Offset > len(b) || p1.Offset > p2.Offset {
+		return ""
+	}
+	return strings.TrimSpace(string(b[p1.Offset:p2.Offset]))
 }
